@@ -114,9 +114,11 @@ static void run_case(uint64_t idx, void *vctx) {
         default: n = (size_t) rng_range(&r, 1000, c->thorough ? 10000 : 4000); break;
     }
     int shape = (int) rng_below(&r, 6);
-    int mexp = (int) rng_range(&r, -30, 30);
-    double mag = pow(10.0, mexp) * (1 + rng_unit(&r));
     int as_f32 = rng_chance(&r, 1, 3);
+    /* f64 sequences also far beyond the float range (all samples above FLT_MAX or below FLT_MIN); squares stay finite */
+    int mexp = (int) rng_range(&r, -30, 30);
+    if (!as_f32 && rng_chance(&r, 1, 3)) mexp = (int) rng_range(&r, -140, 140);
+    double mag = pow(10.0, mexp) * (1 + rng_unit(&r));
     double *x = malloc((n + 1) * sizeof(double));
     gen(&r, x, n, shape, mag, as_f32);
     ref_t ref; reference(x, 0, n, &ref);
